@@ -20,8 +20,12 @@ def _log(s):
 class Sleeper:
     k: int
     seconds: float
+    block_sigterm: bool = False
 
     def run(self):
+        if self.block_sigterm:
+            import signal
+            signal.pthread_sigmask(signal.SIG_BLOCK, {signal.SIGTERM})   # a critical section that must not be cut short
         _log(f's{self.k}')
         time.sleep(self.seconds)
         _log(f'f{self.k}')
